@@ -1,6 +1,7 @@
 import LeaspyVerif.Proto
 import LeaspyVerif.Model.Sampler
 import LeaspyVerif.Model.Indep
+import LeaspyVerif.Model.Trace
 open LeaspyVerif LeaspyVerif.Proto LeaspyVerif.Sampler LeaspyVerif.Indep
 
 /-
@@ -11,6 +12,24 @@ requests (floats are `f<uint64 bits of the double>`)
   add a=<f,…> b=<f,…>                → t=<f,…>          entry-wise sum of two per-individual term vectors
   ind dt=<32|64> tinv=<f> d=<n> cur=<f,…;f,…> std=<f,…> z=<f,…> u=<f,…> dA=<f,…> dR=<f,…>
         → acc=<b,…> val=<f,…;…> usedz=<n> usedu=<n>     | err:draws      (one step of the individual sampler)
+
+  trace outs=<id,…> nodes=<node;node;…>
+        → rowlocal=<1|0> firstbad=<id>:<reason>|_ types=<one of p,i,m per node> modes=<one of r,w,u,- per node>
+          batched=<0|1 per node> nwhole=<k> nescape=<k> unsupported=<names|_>
+        the program recorded from the real code (`harness/trace_c07.py`), lowered by `Trace.lower` and typed by
+        `Trace.rowLocal`; `firstbad` = first `mixed` ancestor of the first offending output (or the first escape of a
+        non-`pop` value) with the reason: `axis0:<fn>` (takes batched arguments whole), `unknown-leaf`, `escape`,
+        `unsupported:<torch name>`, `dangling`
+  evaltrace n=<n> outs=… nodes=… pops=<f,…;…> inds=<f,…;…> unks=<f,…;…>
+        → out=<id>:<shape>:<f,…>;…      values of the outputs under `Trace.tensorSem` on doubles (batched: all rows)
+
+  node syntax (`|`-separated; shapes `3x11x4`, scalar `_`):
+    P|k|shape   I|k|shape   U|k|shape          inputs (population-level / individual-level, axis 0 = individuals / unclassified)
+    K|shape|f,…                                constant
+    E|a|<1|0>                                  bool()/item() of node a; 1 = whitelisted assertion site
+    O|<op>|<args>|<out shape>|<params>         ew.<name> | red.<name> dims:keep | view | squeeze d|_ | unsqueeze d | expand |
+                                               getitem <items: `:` N E i<k> s<a>:<b>:<step>> | cat d | stack d | matmul |
+                                               transpose a,b | softmax d | cumsum d | unknown.<torch name>
 -/
 
 /-- dt=64 (joint model: float64 `tau`, `xi`): the change `std * randn` is a float32 product
@@ -43,6 +62,172 @@ def runInd {α} [Mul α] [Add α] (ofF : Float → α) (toF : α → Float) (arg
   | some r =>
     some s!"acc={fmtList (fun (x : List α × Bool) => fmtBool x.2) r.rows} val={fmtList2 (fun x => fmtFloat (toF x)) (r.rows.map (·.1))} usedz={z.length - r.zs.length} usedu={u.length - r.us.length}"
 
+/-! ### recorded programs (`Model/Trace.lean`) -/
+namespace TraceDrv
+open LeaspyVerif.Trace
+
+def floatOps : Ops Float :=
+  { zero := 0, one := 1, add := (· + ·), sub := (· - ·), mul := (· * ·), div := (· / ·), lt := (· < ·), eq := (· == ·),
+    exp := Float.exp, log := Float.log, pow := Float.pow, sqrt := Float.sqrt, ofNat := Float.ofNat }
+
+def parseShape (s : String) : Option (List Nat) := parseList parseNat s "x"
+def fmtShape (s : List Nat) : String := fmtList toString s "x"
+
+def parseEw : String → Option Ew
+  | "add" => some .add | "sub" => some .sub | "mul" => some .mul | "div" => some .div | "pow" => some .pow
+  | "ge" => some .ge | "gt" => some .gt | "le" => some .le | "lt" => some .lt | "eq" => some .eq | "ne" => some .ne
+  | "and" => some .and | "or" => some .or | "not" => some .not | "neg" => some .neg | "exp" => some .exp
+  | "log" => some .log | "log1p" => some .log1p | "sigmoid" => some .sigmoid | "sign" => some .sign | "abs" => some .abs
+  | "sqrt" => some .sqrt | "square" => some .square | "id" => some .id | "where" => some .where_
+  | "maximum" => some .maximum | "minimum" => some .minimum | "bce" => some .bce | "fill0" => some .fill0
+  | "fill1" => some .fill1 | _ => none
+
+def parseRed : String → Option Red
+  | "sum" => some .sum | "prod" => some .prod | "max" => some .max | "min" => some .min | "mean" => some .mean
+  | "all" => some .all | "any" => some .any | _ => none
+
+def parseOptInt (s : String) : Option (Option Int) := if s == "_" || s == "" then some none else some <$> parseInt s
+
+def parseIx (s : String) : Option Ix :=
+  if s == ":" then some .all else if s == "N" then some .new else if s == "E" then some .ell
+  else if s.startsWith "i" then Ix.at <$> parseInt (s.drop 1).toString
+  else if s.startsWith "s" then
+    match (s.drop 1).toString.splitOn ":" with
+    | [a, b, c] => do
+      let a ← parseOptInt a
+      let b ← parseOptInt b
+      let c ← parseNat c
+      some (.slice a b c)
+    | _ => none
+  else none
+
+def parseTOp (name params : String) : Option (TOp Float) :=
+  match name.splitOn "." with
+  | ["ew", e] => TOp.ew <$> parseEw e
+  | ["red", r] => do
+    let k ← parseRed r
+    match params.splitOn ":" with
+    | [ds, keep] => do
+      let ds ← parseList parseInt ds
+      let keep ← parseBool keep
+      some (.red k ds keep)
+    | _ => none
+  | ["view"] => some .view
+  | ["squeeze"] => TOp.squeeze <$> parseOptInt params
+  | ["unsqueeze"] => TOp.unsqueeze <$> parseInt params
+  | ["expand"] => some .expand
+  | ["getitem"] => TOp.getitem <$> parseList parseIx params
+  | ["cat"] => TOp.cat <$> parseInt params
+  | ["stack"] => TOp.stack <$> parseInt params
+  | ["matmul"] => some .matmul
+  | ["transpose"] => match params.splitOn "," with
+    | [a, b] => do some (.transpose (← parseInt a) (← parseInt b))
+    | _ => none
+  | ["softmax"] => TOp.softmax <$> parseInt params
+  | ["cumsum"] => TOp.cumsum <$> parseInt params
+  | "unknown" :: rest => some (.unknown (".".intercalate rest))
+  | _ => none
+
+def parseNode (s : String) : Option (TNode Float) :=
+  match s.splitOn "|" with
+  | ["P", k, sh] => do some (.pop (← parseNat k) (← parseShape sh))
+  | ["I", k, sh] => do some (.ind (← parseNat k) (← parseShape sh))
+  | ["U", k, sh] => do some (.unk (← parseNat k) (← parseShape sh))
+  | ["K", sh, d] => do
+    let sh ← parseShape sh
+    let d ← parseList parseFloat d
+    if d.length != numel sh then none
+    some (.op (.const ⟨sh, d.toArray⟩) [] sh)
+  | ["E", a, w] => do some (.escape (← parseNat a) (← parseBool w))
+  | ["O", name, args, sh, params] => do
+    let o ← parseTOp name params
+    some (.op o (← parseList parseNat args) (← parseShape sh))
+  | _ => none
+
+/-- well-scoped: every argument is an earlier node -/
+def wellScoped (nodes : List (TNode Float)) : Bool :=
+  nodes.zipIdx.all fun (nd, i) => match nd with
+    | .op _ args _ => args.all (· < i)
+    | .escape a _ => a < i
+    | _ => true
+
+def fnName : Fn Float → String
+  | .const _ => "const" | .ew _ _ => "ew" | .red _ _ _ => "red" | .reshape _ => "reshape" | .expand _ => "expand"
+  | .index _ => "index" | .cat _ => "cat" | .stack _ => "stack" | .matmul => "matmul" | .transpose _ _ => "transpose"
+  | .softmax _ => "softmax" | .cumsum _ => "cumsum" | .unknown s => s!"unsupported:{s}"
+
+def reason (nodes : List (Node (Fn Float))) (tys : List Ty) (k : Nat) : String :=
+  match nodes[k]? with
+  | some (.unk _) => "unknown-leaf"
+  | some (.escape _) => "escape"
+  | some (.op f args) =>
+    if args.any (fun a => tys[a.id]?.isNone) then "dangling"
+    else match f with
+      | .unknown s => s!"unsupported:{s}"
+      | _ => if args.any (fun a => a.whole && tys[a.id]? != some .pop) then s!"axis0:{fnName f}" else "mixed-input"
+  | _ => "?"
+
+def parseProg (args : List String) : Option (List (TNode Float) × List Nat) := do
+  let outs ← (kv args "outs") >>= parseList parseNat
+  let nodes ← (kv args "nodes") >>= (parseList parseNode · ";")
+  if !wellScoped nodes || outs.any (· ≥ nodes.length) then none
+  some (nodes, outs)
+
+def runTrace (args : List String) : Option String := do
+  let (tnodes, outs) ← parseProg args
+  let p := lower tnodes outs
+  let tys := types p
+  let ok := rowLocal p
+  -- first offending node: an escaping non-pop value, else the first mixed ancestor of the first non-local output
+  let badEsc := (p.nodes.zip tys).zipIdx.find? fun ((nd, t), _) => nd.isEscape && t != .pop
+  let badOut := outs.find? fun o => !(tys[o]? == some .ind || tys[o]? == some .pop)
+  let first : Option Nat := match badOut with
+    | some o => ((ancestors p.nodes o).filter (fun k => tys[k]? == some .mixed)).foldl
+        (fun m k => match m with | none => some k | some m => some (min m k)) none
+    | none => badEsc.map (·.2)
+  let nwhole := (p.nodes.filter fun nd => match nd with | .op _ a => a.any (·.whole) | _ => false).length
+  let nesc := (p.nodes.filter (·.isEscape)).length
+  let unsup := p.nodes.filterMap fun nd => match nd with | .op (.unknown s) _ => some s | _ => none
+  let tyc := fun (t : Ty) => match t with | .pop => "p" | .ind => "i" | .mixed => "m"
+  let fb := match first with | some k => s!"{k}:{reason p.nodes tys k}" | none => "_"
+  -- per node: r = acts row by row (batched result), w = takes batched arguments whole, u = unbatched operation, - = input / escape
+  let infos := (lowerFrom tnodes [] []).2
+  let modes := (p.nodes.zip infos).map fun (nd, i) => match nd with
+    | .op _ a => if a.any (·.whole) then "w" else if i.batched then "r" else "u"
+    | _ => "-"
+  let bat := infos.map fun i => if i.batched then "1" else "0"
+  some s!"rowlocal={fmtBool ok} firstbad={fb} types={"".intercalate (tys.map tyc)} modes={"".intercalate modes} batched={"".intercalate bat} nwhole={nwhole} nescape={nesc} unsupported={fmtList id unsup.eraseDups}"
+
+def leafShapes (nodes : List (TNode Float)) : List (List Nat) × List (List Nat) × List (List Nat) :=
+  let get := fun (sel : TNode Float → Option (Nat × List Nat)) =>
+    let l := nodes.filterMap sel
+    (List.range l.length).map fun k => ((l.find? (·.1 = k)).map (·.2)).getD []
+  (get fun | .pop k s => some (k, s) | _ => none, get fun | .ind k s => some (k, s) | _ => none,
+   get fun | .unk k s => some (k, s) | _ => none)
+
+def runEval (args : List String) : Option String := do
+  let (tnodes, outs) ← parseProg args
+  let n ← (kv args "n") >>= parseNat
+  let (ps, is, us) := leafShapes tnodes
+  let rd := fun (key : String) (shapes : List (List Nat)) => do
+    let d ← (kv args key) >>= (parseList (parseList parseFloat ·) · ";")
+    if d.length != shapes.length then none
+    if (d.zip shapes).any (fun (x, s) => x.length != numel s) then none
+    some ((d.zip shapes).map fun (x, s) => (⟨s, x.toArray⟩ : Tn Float))
+  let pops ← rd "pops" ps
+  let inds ← rd "inds" is
+  let unks ← rd "unks" us
+  let p := lower tnodes outs
+  let env := (eval (tensorSem floatOps) n (inputsOf pops inds unks) p).toArray
+  let fmt := fun (o : Nat) => match env[o]? with
+    | none => s!"{o}:_:_"
+    | some v =>
+      let t := wholeOf (tensorSem floatOps) n v
+      s!"{o}:{fmtShape t.shape}:{fmtList fmtFloat t.data.toList}"
+  some s!"out={";".intercalate (outs.map fmt)}"
+
+end TraceDrv
+
 def handle (line : String) : String :=
   match line.splitOn " " with
   | "total" :: args =>
@@ -65,6 +250,8 @@ def handle (line : String) : String :=
      | some "32" => runInd (α := Float32) Float.toFloat32 Float32.toFloat args
      | some "64" => runInd (α := Mixed) Mixed.mk Mixed.v args
      | _ => none).getD "bad-request"
+  | "trace" :: args => (TraceDrv.runTrace args).getD "bad-request"
+  | "evaltrace" :: args => (TraceDrv.runEval args).getD "bad-request"
   | _ => "bad-request"
 
 def main : IO Unit := loop handle
